@@ -49,9 +49,44 @@ def parseFam (s : String) : Option Delims :=
     | _ => none
   | _ => none
 
+/-- greedy tokenizer for tag interiors (only used to bring a written interior into the form the
+    theorems talk about; `srcs (toToks s) = s` is checked by the caller) -/
+partial def toToks (s : List Char) : Option (List Tok) :=
+  match s with
+  | [] => some []
+  | c :: r =>
+    if isAsciiWs c then
+      let w := s.takeWhile isAsciiWs
+      (toToks (s.dropWhile isAsciiWs)).map (Tok.ws w :: ·)
+    else if isIdentStart c then
+      let w := c :: r.takeWhile isIdentCont
+      (toToks (r.dropWhile isIdentCont)).map (Tok.ident w :: ·)
+    else if isDigit c then
+      let w := s.takeWhile isDigit
+      (toToks (s.dropWhile isDigit)).map (Tok.int w :: ·)
+    else if c = '\'' || c = '"' then
+      let rec body (esc : Bool) (acc : List Char) : List Char → Option (List Char × List Char)
+        | [] => none
+        | x :: xs =>
+          if esc then body false (x :: acc) xs
+          else if x = '\\' then body true (x :: acc) xs
+          else if x = c then some (acc.reverse, xs)
+          else body false (x :: acc) xs
+      match body false [] r with
+      | some (b, rest) => (toToks rest).map (Tok.str c b :: ·)
+      | none => none
+    else
+      match r with
+      | c2 :: r2 =>
+        if twoCharOp c c2 then (toToks r2).map (Tok.op2 c c2 :: ·)
+        else if (singleOp c).isSome then (toToks r).map (Tok.op c :: ·) else none
+      | [] => if (singleOp c).isSome then some [Tok.op c] else none
+
 inductive Item where
   | text (s : List Char)
   | tag (g : Tag)
+  /-- a tag whose interior is not a token list of the grammar: only lexed, no spec -/
+  | opaque (kind : Char) (l r : Mark) (interior : List Char)
 
 /-- items of a `seg` case; the k-th `B` is `if t` for even k, `endif` for odd k -/
 def parseItems : List String → Nat → Option (List Item)
@@ -66,22 +101,35 @@ def parseItems : List String → Nat → Option (List Item)
       let l ← parseMark l
       let r ← parseMark r
       let xs ← parseItems rest nb
-      pure (.tag ⟨.var false, l, r⟩ :: xs)
+      pure (.tag ⟨.var (vocabV false), l, r⟩ :: xs)
     | ['v', l, r] => do
       let l ← parseMark l
       let r ← parseMark r
       let xs ← parseItems rest nb
-      pure (.tag ⟨.var true, l, r⟩ :: xs)
+      pure (.tag ⟨.var (vocabV true), l, r⟩ :: xs)
+    | 'G' :: k :: l :: r :: h => do
+      let l ← parseMark l
+      let r ← parseMark r
+      let body ← unhex (String.ofList h)
+      let xs ← parseItems rest nb
+      if k = 'c' then pure (.tag ⟨.comment body, l, r⟩ :: xs)
+      else
+        match toToks body with
+        | some ts =>
+          if srcs ts = body then
+            pure (.tag ⟨if k = 'v' then .var ts else .block ts, l, r⟩ :: xs)
+          else pure (.opaque k l r body :: xs)
+        | none => pure (.opaque k l r body :: xs)
     | ['B', l, r] => do
       let l ← parseMark l
       let r ← parseMark r
       let xs ← parseItems rest (nb + 1)
-      pure (.tag ⟨.block (if nb % 2 = 0 then .ifT else .endif) false, l, r⟩ :: xs)
+      pure (.tag ⟨.block (if nb % 2 = 0 then vocabIf false else vocabEndif false), l, r⟩ :: xs)
     | ['b', l, r] => do
       let l ← parseMark l
       let r ← parseMark r
       let xs ← parseItems rest (nb + 1)
-      pure (.tag ⟨.block (if nb % 2 = 0 then .ifT else .endif) true, l, r⟩ :: xs)
+      pure (.tag ⟨.block (if nb % 2 = 0 then vocabIf true else vocabEndif true), l, r⟩ :: xs)
     | ['C', l, r] => do
       let l ← parseMark l
       let r ← parseMark r
@@ -116,12 +164,72 @@ def itemsSrc (d : Delims) : List Item → List Char
   | [] => []
   | .text t :: r => t ++ itemsSrc d r
   | .tag g :: r => g.src d ++ itemsSrc d r
+  | .opaque k l m body :: r =>
+    (if k = 'v' then d.vs ++ l.src ++ body ++ m.src ++ d.ve else d.bs ++ l.src ++ body ++ m.src ++ d.be) ++
+      itemsSrc d r
+
+def hasOpaque : List Item → Bool
+  | [] => false
+  | .opaque _ _ _ _ :: _ => true
+  | _ :: r => hasOpaque r
 
 /-- alternating form: adjacent texts are joined, adjacent tags get an empty text between them -/
 def toTmpl : List Item → Tmpl
   | [] => ⟨[], []⟩
   | .text t :: r => let tm := toTmpl r; ⟨t ++ tm.head, tm.tail⟩
   | .tag g :: r => let tm := toTmpl r; ⟨[], (g, tm.head) :: tm.tail⟩
+  | .opaque _ _ _ _ :: r => toTmpl r
+
+/-- a text in which U+0001 stands for the variable tag `{{ v }}` -/
+def textWithVars (cs : List Char) : List Item :=
+  let rec go (acc : List Char) : List Char → List Item
+    | [] => [.text acc.reverse]
+    | c :: r =>
+      if c = Char.ofNat 1 then .text acc.reverse :: .tag ⟨.var (vocabV false), .none, .none⟩ :: go [] r
+      else go (c :: acc) r
+  go [] cs
+
+/-- items of a `line` case (see harness): X text line, S statement line, K comment line, Z text with
+    a trailing line comment; a final `!` = no line break behind the last line -/
+def parseLines (its : List String) (nl : List Char) (nb : Nat) : Option (List Item) :=
+  let noFinal := its.getLast? = some "!"
+  let its := its.filter (· ≠ "!")
+  let rec go : List String → Nat → Option (List Item)
+    | [], _ => some []
+    | it :: rest, nb =>
+      let thisNl := if rest.isEmpty && noFinal then [] else nl
+      match it.toList with
+      | 'X' :: h => do
+        let t ← unhex (String.ofList h)
+        let xs ← go rest nb
+        pure (textWithVars t ++ .text thisNl :: xs)
+      | 'S' :: h =>
+        match (String.ofList h).splitOn "." with
+        | [a, b] => do
+          let ind ← unhex a
+          let trail ← unhex b
+          let xs ← go rest (nb + 1)
+          let ts := if nb % 2 = 0 then (vocabIf false).dropLast else (vocabEndif false).dropLast
+          pure (.text ind :: .tag ⟨.lineStmt ts, .none, .none⟩ :: .text (trail ++ thisNl) :: xs)
+        | _ => none
+      | 'K' :: h =>
+        match (String.ofList h).splitOn "." with
+        | [a, b] => do
+          let ind ← unhex a
+          let c ← unhex b
+          let xs ← go rest nb
+          pure (.text ind :: .tag ⟨.lineComment c, .none, .none⟩ :: .text thisNl :: xs)
+        | _ => none
+      | 'Z' :: h =>
+        match (String.ofList h).splitOn "." with
+        | [a, b] => do
+          let t ← unhex a
+          let c ← unhex b
+          let xs ← go rest nb
+          pure (textWithVars t ++ .tag ⟨.lineComment c, .none, .none⟩ :: .text thisNl :: xs)
+        | _ => none
+      | _ => none
+  go its nb
 
 def showOuts (o : List Out) : List String :=
   o.map fun
@@ -148,15 +256,30 @@ def handle (line : String) : String :=
     match parseCfg tlk, parseFam fam, parseItems (if segs = "." then [] else segs.splitOn ";") 0 with
     | some cfg, some d, some items =>
       let src := itemsSrc d items
+      let res := lex cfg d (findStart d) src
+      if hasOpaque items then
+        let srcok := (field fields "src") = some (hexOf src)
+        s!"{case}\ttok={showRes res}\tspec=-\tfree=0\tgood={if goodDelims d then 1 else 0}\tsrcok={if srcok then 1 else 0}"
+      else
       let tm := toTmpl items
       let srcok := (field fields "src") = some (hexOf src) && unparse d tm = src
-      let res := lex cfg d (findStart d) src
       let free := delimFree d tm
       s!"{case}\ttok={showRes res}\tspec={hexOf (specRender cfg vmark bmark tm)}\tfree={if free then 1 else 0}\tgood={if goodDelims d then 1 else 0}\tsrcok={if srcok then 1 else 0}"
     | _, _, _ => s!"{case}\tbad-case"
-  | ["line", tlk, fam, _nl, _lines] =>
+  | ["prog", tlk, fam, _segs] =>
     match parseCfg tlk, parseFam fam, (field fields "src").bind unhex with
     | some cfg, some d, some src => s!"{case}\ttok={showRes (lex cfg d (findStart d) src)}"
+    | _, _, _ => s!"{case}\tbad-case"
+  | ["line", tlk, fam, nl, lines] =>
+    match parseCfg tlk, parseFam fam, (field fields "src").bind unhex with
+    | some cfg, some d, some src =>
+      let res := lex cfg d (findStart d) src
+      match parseLines (lines.splitOn ";") (if nl = "n" then ['\n'] else if nl = "rn" then ['\r', '\n'] else ['\r']) 0 with
+      | some items =>
+        let tm := toTmpl items
+        let srcok := itemsSrc d items = src && unparse d tm = src
+        s!"{case}\ttok={showRes res}\tspec={hexOf (specRender cfg vmark bmark tm)}\tfree={if delimFree d tm then 1 else 0}\tgood={if goodDelims d then 1 else 0}\tsrcok={if srcok then 1 else 0}"
+      | none => s!"{case}\ttok={showRes res}\tspec=-\tfree=0\tgood=0\tsrcok=0"
     | _, _, _ => s!"{case}\tbad-case"
   | _ => s!"{case}\t-"
 
